@@ -47,6 +47,35 @@ def gen_total(tier, rng):
                         else: total += end - e.a.off
         EXPECT[req] = "err uncloseable" if status == "err" else "ok %d %d %d %d" % (total, should, total - should, len(d.records))
         out.append(req)
+    # several open ranges closed by one --now: yesterday's and today's records in either order, duplicate dates
+    for _ in range(300 if tier == "quick" else 20000):
+        base = datetime.date(rng.choice([2020, 2021, 2024]), rng.randint(1, 12), rng.randint(1, 28))
+        h, mi = rng.randrange(24), rng.randrange(60)
+        now_off = h * 60 + mi
+        recs = []
+        for _k in range(rng.choice([2, 2, 3, 4])):
+            delta = rng.choice([0, 0, -1, -1, -2, 1])
+            d = base + datetime.timedelta(days=delta)
+            start = rng.choice([0, rng.randrange(1440), max(0, now_off - 5), min(1439, now_off + 5)])
+            shifted = rng.random() < 0.15
+            recs.append((d, delta, start, shifted, rng.random() < 0.8, rng.randrange(0, 120)))
+        text = ""; total = 0; status = "ok"
+        for d, delta, start, shifted, has_open, extra in recs:
+            text += "%04d-%02d-%02d\n    %dm\n" % (d.year, d.month, d.day, extra)
+            total += extra
+            if has_open:
+                st = start - 1440 if shifted else start
+                text += "    %s%d:%02d - ?\n" % ("<" if shifted else "", start // 60, start % 60)
+                if delta == 0: end = now_off
+                elif delta == -1: end = now_off + 1440
+                else: status = "err"; end = None
+                if end is not None:
+                    if end < st: status = "err"
+                    else: total += end - st
+            text += "\n"
+        req = "eval-total %d %d %d %d %d 1 %s" % (base.year, base.month, base.day, h, mi, text.encode().hex())
+        EXPECT[req] = "err uncloseable" if status == "err" else "ok %d 0 %d %d" % (total, total, len(recs))
+        out.append(req)
     return out
 
 def oracle_total(req, out):
